@@ -369,3 +369,15 @@ pub fn view(net: &crate::Network) -> NetworkView {
         fetch_queue: net.gossip.fetch_queue.current_blocks(),
     }
 }
+
+/// What the `push_validator_addrs` RPC handler does with a received batch (the address gossip
+/// itself is stubbed by the harness).
+pub async fn push_validator_addrs(
+    net: &crate::Network,
+    data: &[std::sync::Arc<zksync_consensus_roles::validator::Signed<zksync_consensus_roles::validator::NetAddress>>],
+) -> anyhow::Result<()> {
+    if let Some(schedule) = net.gossip.validator_schedule()? {
+        net.gossip.validator_addrs.update(&schedule, data).await?;
+    }
+    Ok(())
+}
